@@ -70,7 +70,48 @@ type cluster struct {
 	log     []string
 }
 
-func clPre(scn string) bool { return strings.Contains(scn, "pre=1") }
+// clPreKind: 0 = singleton nodes; 1 = formed, converged cluster; 2 = formed cluster whose last node has
+// crashed and been detected everywhere; 3 = formed cluster whose last node has left gracefully (its
+// intent delivered everywhere, its memberlist departure seen everywhere).
+func clPreKind(scn string) int {
+	for _, kv := range strings.Split(scn, ";") {
+		if strings.HasPrefix(kv, "pre=") {
+			v, _ := strconv.Atoi(kv[4:])
+			return v
+		}
+	}
+	return 0
+}
+
+func clPre(scn string) bool { return clPreKind(scn) > 0 }
+
+// clPreHist is the part of the pre-state's construction that matters to root-cause attribution.
+func clPreHist(scn string) []string {
+	n, _, _ := clParse(scn)
+	switch clPreKind(scn) {
+	case 2:
+		return []string{fmt.Sprintf("crash %d", n-1)}
+	case 3:
+		return []string{fmt.Sprintf("leave %d", n-1)}
+	}
+	return nil
+}
+
+// applyAll applies enabled actions with the given prefix until none is left (at most 50).
+func (cl *cluster) applyAll(prefix string) {
+	for i := 0; i < 50; i++ {
+		done := true
+		for _, a := range cl.enabled() {
+			if strings.HasPrefix(a, prefix) && cl.apply(a) {
+				done = false
+				break
+			}
+		}
+		if done {
+			return
+		}
+	}
+}
 
 func clParse(scn string) (n, budget int, faults bool) {
 	n, budget = 2, 3
@@ -911,6 +952,43 @@ func (clusterModel) Exec(scenario string, hist []string) vc.BFSState {
 			cl.settle()
 			cl.used = 0
 			cl.viol = nil
+			last := n - 1
+			switch clPreKind(scenario) {
+			case 2:
+				if !cl.apply(fmt.Sprintf("crash %d", last)) {
+					st.Err = "pre: crash failed"
+					return
+				}
+				cl.applyAll("mlleave ")
+			case 3:
+				if !cl.apply(fmt.Sprintf("leave %d", last)) || !cl.apply(fmt.Sprintf("gossip %d", last)) {
+					st.Err = "pre: leave failed"
+					return
+				}
+				cl.applyAll(fmt.Sprintf("deliver %d ", last))
+				for t := 0; t < 8 && cl.pending(); t++ {
+					cl.apply("tick")
+				}
+				cl.applyAll("mlleave ")
+				if cl.nodes[last].phase != "left" {
+					st.Err = "pre: leave did not complete"
+					return
+				}
+			}
+			if clPreKind(scenario) > 1 {
+				for _, a := range cl.nodes {
+					if a.up() {
+						cl.gossip(a)
+					}
+					a.outbox = map[string]bool{}
+				}
+				cl.settle()
+				cl.used = 0
+				if len(cl.viol) > 0 {
+					st.Err = "pre: violation while building the start state: " + cl.viol[0].Message
+					return
+				}
+			}
 		}
 		for _, a := range hist {
 			if !cl.apply(a) {
